@@ -20,6 +20,7 @@ import (
 	"path/filepath"
 	"regexp"
 	"strings"
+	"unicode/utf8"
 )
 
 const c10RustHead = `// ---- stand-alone detector oracle: stubs for the few external items used by the sliced text ----
@@ -30,9 +31,11 @@ use std::fmt;
 use std::io::{self, BufRead, Write};
 use std::net::IpAddr;
 use std::sync::{Arc, RwLock};
+use std::thread;
+use std::time;
 
 // pnet::packet::ip
-#[derive(Clone, Copy, PartialEq, Eq, Debug)]
+#[derive(Clone, Copy, PartialEq, Eq, Hash, Debug)]
 pub struct IpNextHeaderProtocol(pub u8);
 pub mod IpNextHeaderProtocols {
     use super::IpNextHeaderProtocol;
@@ -40,12 +43,19 @@ pub mod IpNextHeaderProtocols {
     pub const Udp: IpNextHeaderProtocol = IpNextHeaderProtocol(17);
 }
 
-// signalling.rs (rust-protobuf generated code): optional fields with default-returning getters,
-// enum getters fall back to the default for absent and for unknown values (enum_value_or).
-#[derive(Clone, Copy, PartialEq, Eq, Debug)]
-pub enum IPProto { Unk, Tcp, Udp }
-#[derive(Clone, Copy, PartialEq, Eq, Debug)]
-pub enum StationOperations { Unknown, New, Update, Clear }
+// util::precise_time_ns: virtual clock, set by the line protocol (a "<now>@" prefix of a step)
+static CLOCK: std::sync::Mutex<u128> = std::sync::Mutex::new(0);
+fn precise_time_ns() -> u128 { *CLOCK.lock().unwrap() }
+fn set_clock(t: u128) { *CLOCK.lock().unwrap() = t; }
+
+// SessionTracker::spawn_update_thread starts this in the detector (reads Redis for ever); never called here
+fn ingest_from_pubsub(_map: Arc<RwLock<HashMap<String, u128>>>) {}
+
+macro_rules! debug { ($($arg:tt)*) => { { let _ = format!($($arg)*); } } }
+
+// signalling.rs (rust-protobuf generated code): optional fields with default-returning getters.  The
+// enums, their from_i32 tables and the getters' fall-back values below are GENERATED from the current
+// src/signalling.rs (c10RustWire), not written by hand.
 #[derive(Default, Debug)]
 pub struct StationToDetector {
     pub f_phantom_ip: Option<String>,
@@ -63,22 +73,16 @@ impl StationToDetector {
     pub fn dst_port(&self) -> u32 { self.f_dst_port.unwrap_or(0) }
     pub fn src_port(&self) -> u32 { self.f_src_port.unwrap_or(0) }
     pub fn proto(&self) -> IPProto {
-        match self.f_proto { Some(1) => IPProto::Tcp, Some(2) => IPProto::Udp, _ => IPProto::Unk }
+        match self.f_proto { Some(v) => IPProto::from_i32(v).unwrap_or(IPProto::DEFAULT), None => IPProto::DEFAULT }
     }
     pub fn operation(&self) -> StationOperations {
-        match self.f_operation {
-            Some(1) => StationOperations::New, Some(2) => StationOperations::Update,
-            Some(3) => StationOperations::Clear, _ => StationOperations::Unknown,
-        }
+        match self.f_operation { Some(v) => StationOperations::from_i32(v).unwrap_or(StationOperations::DEFAULT), None => StationOperations::DEFAULT }
     }
 }
+`
 
-// util::precise_time_ns: virtual clock fixed at 0, so a stored expiry equals the requested lifetime
-fn precise_time_ns() -> u128 { 0 }
-
-macro_rules! debug { ($($arg:tt)*) => { { let _ = format!($($arg)*); } } }
-
-// ---- text sliced verbatim out of src/sessions.rs follows ----
+const c10RustSliced = `
+// ---- text sliced verbatim out of src/sessions.rs and src/flow_tracker.rs follows ----
 `
 
 const c10RustTail = `
@@ -113,8 +117,51 @@ fn classify(s: &str) -> String {
 }
 const SENTINEL: &str = "sentinel";
 
-fn one(map: &Arc<RwLock<HashMap<String, u128>>>, m: &str) -> Result<String, String> {
+fn parse_addr(f: &str) -> Result<IpAddr, String> {
+    // "4.<8 hex>" / "6.<32 hex>"
+    let raw = unhex(&f[2..]).ok_or_else(|| format!("bad address {}", f))?;
+    if f.starts_with("4.") && raw.len() == 4 {
+        let o: [u8; 4] = [raw[0], raw[1], raw[2], raw[3]];
+        return Ok(IpAddr::from(o));
+    }
+    if f.starts_with("6.") && raw.len() == 16 {
+        let mut o = [0u8; 16];
+        o.copy_from_slice(&raw);
+        return Ok(IpAddr::from(o));
+    }
+    Err(format!("bad address {}", f))
+}
+
+fn summary(map: &Arc<RwLock<HashMap<String, u128>>>) -> (usize, u8) {
+    let mm = map.read().expect("RwLock broken");
+    (mm.len(), if mm.contains_key(SENTINEL) { 1 } else { 0 })
+}
+
+fn one(map: &Arc<RwLock<HashMap<String, u128>>>, step: &str) -> Result<String, String> {
+    // "<now>@" prefix: set the detector's clock
+    let m = match step.find('@') {
+        Some(i) => { set_clock(step[..i].parse::<u128>().map_err(|_| format!("bad clock {}", step))?); &step[i + 1..] }
+        None => step,
+    };
     let f: Vec<&str> = m.split(',').collect();
+    if f.len() == 1 && f[0] == "S" {
+        // the periodic sweep of the packet path, on a tracker that shares the map
+        let mut tr = SessionTracker { tracked_sessions: Arc::clone(map) };
+        let dropped = tr.drop_stale_sessions();
+        let (n, sentinel) = summary(map);
+        return Ok(format!("-,-|sweep:{}/{}/{}/-|-", dropped, n, sentinel));
+    }
+    if f.len() == 5 && f[0] == "F" {
+        // lookup as process_packet.rs does it: Flow -> FlowNoSrcPort::from_flow -> is_tracked_session
+        let proto = f[1].parse::<u8>().map_err(|_| format!("bad next-header {}", f[1]))?;
+        let dport = f[4].parse::<u16>().map_err(|_| format!("bad port {}", f[4]))?;
+        let flow = Flow::from_parts(parse_addr(f[2])?, parse_addr(f[3])?, 40000, dport, IpNextHeaderProtocol(proto));
+        let cj_flow = FlowNoSrcPort::from_flow(&flow);
+        let tr = SessionTracker { tracked_sessions: Arc::clone(map) };
+        let tracked = if tr.is_tracked_session(&cj_flow) { 1 } else { 0 };
+        let (n, sentinel) = summary(map);
+        return Ok(format!("-,-|flow:{}/{}/{}/-|{}", tracked, n, sentinel, hex(cj_flow.tag().as_bytes())));
+    }
     if f.len() != 7 { return Err(format!("want 7 fields, got {}", f.len())); }
     let s2d = StationToDetector {
         f_operation: opt_num::<i32>(f[0])?,
@@ -151,6 +198,7 @@ fn main() {
         let line = match line { Ok(l) => l, Err(_) => break };
         let map: Arc<RwLock<HashMap<String, u128>>> = Arc::new(RwLock::new(HashMap::new()));
         map.write().unwrap().insert(SENTINEL.to_string(), 1);
+        set_clock(0);
         let mut res: Vec<String> = Vec::new();
         for m in line.split(';') {
             match one(&map, m) { Ok(s) => res.push(s), Err(e) => res.push(format!("BAD {}", e)) }
@@ -163,6 +211,8 @@ fn main() {
 
 // items of sessions.rs the oracle is made of, in the order they are emitted
 var c10RustItems = []string{
+	`^const S2NS\b`,
+	`^const TIMEOUT_PHANTOMS_NS\b`,
 	`^pub enum SessionError\b`,
 	`^pub type SessionResult\b`,
 	`^impl fmt::Display for SessionError\b`,
@@ -171,9 +221,25 @@ var c10RustItems = []string{
 	`^impl Taggable for SessionDetails\b`,
 	`^impl SessionDetails\b`,
 	`^impl From<&StationToDetector> for SessionResult\b`,
+	`^pub struct SessionTracker\b`,
+	`^impl SessionTracker\b`, // is_tracked_session, session_exists, drop_stale_sessions (the packet path)
 	`^fn pubsub_handle_s2d\b`,
 	`^fn pubsub_add_or_update_session\b`,
 	`^fn pubsub_clear\b`,
+}
+
+// items of flow_tracker.rs: the flow types the packet path looks sessions up with, and their tags
+var c10RustFlowItems = []string{
+	`^pub struct Flow\b`,
+	`^pub struct FlowNoSrcPort\b`,
+	`^impl Taggable for FlowNoSrcPort\b`,
+}
+
+// associated functions cut out of an impl block of flow_tracker.rs (the rest of those blocks needs pnet
+// packet types): {type, fn header}
+var c10RustFlowFns = [][2]string{
+	{"Flow", `^\s*pub fn from_parts\b`},
+	{"FlowNoSrcPort", `^\s*pub fn from_flow\b`},
 }
 
 // c10SkipTrivia returns the index after a comment / string / char literal starting at k, or k.
@@ -280,11 +346,268 @@ func c10OracleSource() (prog string, channel string, err error) {
 		}
 		parts = append(parts, it)
 	}
+	fb, err := os.ReadFile(filepath.Join(c10RepoRoot(), "src", "flow_tracker.rs"))
+	if err != nil {
+		return "", "", err
+	}
+	fsrc := string(fb)
+	if i := strings.Index(fsrc, "#[cfg(test)]"); i > 0 {
+		fsrc = fsrc[:i]
+	}
+	for _, h := range c10RustFlowItems {
+		it, err := c10SliceItem(fsrc, h)
+		if err != nil {
+			return "", "", fmt.Errorf("flow_tracker.rs: %v", err)
+		}
+		parts = append(parts, it)
+	}
+	for _, hf := range c10RustFlowFns {
+		blk, err := c10SliceItem(fsrc, `^impl `+hf[0]+`\b`)
+		if err != nil {
+			return "", "", fmt.Errorf("flow_tracker.rs: %v", err)
+		}
+		fn, err := c10SliceItem(blk, hf[1])
+		if err != nil {
+			return "", "", fmt.Errorf("flow_tracker.rs, inside impl %s: %v", hf[0], err)
+		}
+		parts = append(parts, "impl "+hf[0]+" {\n"+fn+"\n}")
+	}
+	wire, err := c10RustWire()
+	if err != nil {
+		return "", "", err
+	}
 	m := regexp.MustCompile(`\.subscribe\(\s*"([^"]*)"\s*\)`).FindStringSubmatch(src)
 	if m == nil {
 		return "", "", fmt.Errorf("subscribe(\"…\") not found in sessions.rs")
 	}
-	return c10RustHead + strings.Join(parts, "\n\n") + "\n" + c10RustTail, m[1], nil
+	return c10RustHead + wire.enumCode() + c10RustSliced + strings.Join(parts, "\n\n") + "\n" + c10RustTail, m[1], nil
+}
+
+// ---------------------------------------------------------------------------------------------
+// the detector's view of the wire format: field tags, readers and enum tables of the generated
+// src/signalling.rs (rust-protobuf).  The harness decodes the bytes the station really published with
+// THIS table (not with the Go protobuf library), so a disagreement between the two stacks about a field
+// number, a wire type or an enum value reaches the detector oracle as the message the detector would see.
+
+type c10RustField struct {
+	tag    uint64 // full tag: field number << 3 | wire type
+	name   string
+	reader string // string | uint64 | uint32 | enum_or_unknown
+}
+
+type c10RustEnum struct {
+	name     string
+	variants [][2]string // (name, discriminant) as declared
+	fromI32  [][2]string // (wire value, variant) of from_i32
+	deflt    string      // variant the getter falls back to (enum_value_or)
+}
+
+type c10Wire struct {
+	fields []c10RustField
+	enums  []c10RustEnum
+}
+
+var c10WireCache *c10Wire
+
+func c10RustWire() (*c10Wire, error) {
+	if c10WireCache != nil {
+		return c10WireCache, nil
+	}
+	b, err := os.ReadFile(filepath.Join(c10RepoRoot(), "src", "signalling.rs"))
+	if err != nil {
+		return nil, err
+	}
+	src := string(b)
+	w := &c10Wire{}
+	blk, err := c10SliceItem(src, `^impl ::protobuf::Message for StationToDetector\b`)
+	if err != nil {
+		return nil, fmt.Errorf("signalling.rs: %v", err)
+	}
+	mf, err := c10SliceItem(blk, `^\s*fn merge_from\b`)
+	if err != nil {
+		return nil, fmt.Errorf("signalling.rs: StationToDetector: %v", err)
+	}
+	arms := regexp.MustCompile(`(?s)(\d+)\s*=>\s*\{\s*self\.(\w+)\s*=\s*::std::option::Option::Some\(is\.read_(\w+)\(\)\?\);`).FindAllStringSubmatch(mf, -1)
+	for _, a := range arms {
+		var tag uint64
+		fmt.Sscanf(a[1], "%d", &tag)
+		w.fields = append(w.fields, c10RustField{tag: tag, name: a[2], reader: a[3]})
+	}
+	// every `=> {` arm of the match must have been understood (the catch-all `tag => {` aside)
+	if n := len(regexp.MustCompile(`\d+\s*=>\s*\{`).FindAllString(mf, -1)); n != len(w.fields) || n == 0 {
+		return nil, fmt.Errorf("signalling.rs: StationToDetector::merge_from has %d numbered arms, %d understood", n, len(w.fields))
+	}
+	for _, f := range w.fields {
+		switch f.reader {
+		case "string", "uint64", "uint32", "enum_or_unknown":
+		default:
+			return nil, fmt.Errorf("signalling.rs: StationToDetector.%s is read with read_%s, which the harness decoder does not know", f.name, f.reader)
+		}
+	}
+	getters, err := c10SliceItem(src, `^impl StationToDetector\b`)
+	if err != nil {
+		return nil, fmt.Errorf("signalling.rs: %v", err)
+	}
+	for _, en := range [][2]string{{"IPProto", "proto"}, {"StationOperations", "operation"}} {
+		e := c10RustEnum{name: en[0]}
+		decl, err := c10SliceItem(src, `^pub enum `+en[0]+`\b`)
+		if err != nil {
+			return nil, fmt.Errorf("signalling.rs: %v", err)
+		}
+		for _, v := range regexp.MustCompile(`(?m)^\s*(\w+)\s*=\s*(-?\d+)\s*,`).FindAllStringSubmatch(decl, -1) {
+			e.variants = append(e.variants, [2]string{v[1], v[2]})
+		}
+		impl, err := c10SliceItem(src, `^impl ::protobuf::Enum for `+en[0]+`\b`)
+		if err != nil {
+			return nil, fmt.Errorf("signalling.rs: %v", err)
+		}
+		fi, err := c10SliceItem(impl, `^\s*fn from_i32\b`)
+		if err != nil {
+			return nil, fmt.Errorf("signalling.rs: %s: %v", en[0], err)
+		}
+		for _, v := range regexp.MustCompile(`(-?\d+)\s*=>\s*::std::option::Option::Some\(`+en[0]+`::(\w+)\)`).FindAllStringSubmatch(fi, -1) {
+			e.fromI32 = append(e.fromI32, [2]string{v[1], v[2]})
+		}
+		g, err := c10SliceItem(getters, `^\s*pub fn `+en[1]+`\(&self\)`)
+		if err != nil {
+			return nil, fmt.Errorf("signalling.rs: getter %s: %v", en[1], err)
+		}
+		d := regexp.MustCompile(`enum_value_or\(` + en[0] + `::(\w+)\)`).FindStringSubmatch(g)
+		if d == nil || len(e.variants) == 0 || len(e.fromI32) == 0 {
+			return nil, fmt.Errorf("signalling.rs: enum %s not understood (%d variants, %d from_i32 arms)", en[0], len(e.variants), len(e.fromI32))
+		}
+		e.deflt = d[1]
+		w.enums = append(w.enums, e)
+	}
+	c10WireCache = w
+	return w, nil
+}
+
+// enumCode renders the two enums, their from_i32 tables and getter defaults as Rust for the oracle.
+func (w *c10Wire) enumCode() string {
+	var sb strings.Builder
+	for _, e := range w.enums {
+		sb.WriteString("#[derive(Clone, Copy, PartialEq, Eq, Debug)]\npub enum " + e.name + " { ")
+		for _, v := range e.variants {
+			sb.WriteString(v[0] + " = " + v[1] + ", ")
+		}
+		sb.WriteString("}\nimpl " + e.name + " {\n    pub const DEFAULT: " + e.name + " = " + e.name + "::" + e.deflt + ";\n")
+		sb.WriteString("    pub fn from_i32(v: i32) -> Option<" + e.name + "> {\n        match v {\n")
+		for _, v := range e.fromI32 {
+			sb.WriteString("            " + v[0] + " => Some(" + e.name + "::" + v[1] + "),\n")
+		}
+		sb.WriteString("            _ => None,\n        }\n    }\n}\n")
+	}
+	return sb.String()
+}
+
+// c10RustDecode reads a published payload the way the generated Rust code does (merge_from): known
+// tags by their reader, everything else skipped by wire type, the last occurrence of a field wins.
+// Returns the message in the oracle's syntax.
+func (w *c10Wire) decode(p []byte) (string, error) {
+	f := map[string]string{}
+	varint := func() (uint64, error) {
+		var v uint64
+		for i := 0; i < 10; i++ {
+			if len(p) == 0 {
+				return 0, fmt.Errorf("truncated varint")
+			}
+			b := p[0]
+			p = p[1:]
+			v |= uint64(b&0x7f) << (7 * uint(i))
+			if b < 0x80 {
+				return v, nil
+			}
+		}
+		return 0, fmt.Errorf("varint too long")
+	}
+	bytesN := func() ([]byte, error) {
+		n, err := varint()
+		if err != nil {
+			return nil, err
+		}
+		if n > uint64(len(p)) {
+			return nil, fmt.Errorf("truncated length-delimited field")
+		}
+		b := p[:n]
+		p = p[n:]
+		return b, nil
+	}
+	for len(p) > 0 {
+		tag, err := varint()
+		if err != nil {
+			return "", err
+		}
+		var fld *c10RustField
+		for i := range w.fields {
+			if w.fields[i].tag == tag {
+				fld = &w.fields[i]
+			}
+		}
+		if fld == nil {
+			switch tag & 7 {
+			case 0:
+				_, err = varint()
+			case 1:
+				if len(p) < 8 {
+					err = fmt.Errorf("truncated fixed64")
+				} else {
+					p = p[8:]
+				}
+			case 2:
+				_, err = bytesN()
+			case 5:
+				if len(p) < 4 {
+					err = fmt.Errorf("truncated fixed32")
+				} else {
+					p = p[4:]
+				}
+			default:
+				err = fmt.Errorf("wire type %d", tag&7)
+			}
+			if err != nil {
+				return "", err
+			}
+			continue
+		}
+		switch fld.reader {
+		case "string":
+			b, err := bytesN()
+			if err != nil {
+				return "", err
+			}
+			if !utf8.Valid(b) {
+				return "", fmt.Errorf("field %s is not UTF-8", fld.name)
+			}
+			f[fld.name] = "h" + hex.EncodeToString(b)
+		case "uint64":
+			v, err := varint()
+			if err != nil {
+				return "", err
+			}
+			f[fld.name] = fmt.Sprintf("%d", v)
+		case "uint32":
+			v, err := varint()
+			if err != nil {
+				return "", err
+			}
+			f[fld.name] = fmt.Sprintf("%d", uint32(v))
+		case "enum_or_unknown":
+			v, err := varint()
+			if err != nil {
+				return "", err
+			}
+			f[fld.name] = fmt.Sprintf("%d", int32(v))
+		}
+	}
+	out := make([]string, 7)
+	for i, name := range []string{"operation", "proto", "client_ip", "phantom_ip", "dst_port", "src_port", "timeout_ns"} {
+		out[i] = "-"
+		if v, ok := f[name]; ok {
+			out[i] = v
+		}
+	}
+	return strings.Join(out, ","), nil
 }
 
 type c10Oracle struct {
